@@ -1,5 +1,5 @@
 From Coq Require Extraction ExtrOcamlBasic.
-From AG Require Import Sexp.
+From AG Require Import Sexp Entry2.
 Extraction Language OCaml.
 Set Extraction Output Directory ".".
-Extraction "agmodel.ml" run_case.
+Extraction "agmodel.ml" run_case2.
